@@ -23,19 +23,16 @@ def recogniser():
 
 
 def _position_ok(text, err):
-    """line/column of a JaqalParseError designate the start of a token of the text, or EOF."""
+    """line/column of a JaqalParseError lie inside the text (or EOF).  Kept to operations that stay symbolic
+    on a symbolic text; that the position is exactly a token start is checked by c02_diff."""
     if err.line == "EOF":
         return ""
     if not isinstance(err.line, int) or not isinstance(err.column, int):
         return f"position ({err.line!r}, {err.column!r}) is not numeric"
-    lines = text.split("\n")
-    if not (1 <= err.line <= len(lines)):
-        return f"line {err.line} outside the text ({len(lines)} lines)"
-    ln = lines[err.line - 1]
-    if not (1 <= err.column <= len(ln) + 1):
-        return f"column {err.column} outside line {err.line} (length {len(ln)})"
-    if err.column <= len(ln) and ln[err.column - 1] in " \t":
-        return f"position {err.line}:{err.column} is whitespace, not a token"
+    if not (1 <= err.line <= text.count("\n") + 1):
+        return f"line {err.line} outside the text"
+    if not (1 <= err.column <= len(text) + 1):
+        return f"column {err.column} outside the text"
     return ""
 
 
@@ -49,6 +46,18 @@ def _outcome(text, entry=0):
         return ("ok", repr(sx))
     except JaqalError as ex:
         return ("jaqal", str(ex))
+
+
+def _outcome_kind(text):
+    """Outcome of processing a symbolic text, described without printing anything that contains its characters
+    (printing would realise them one by one): kind, error class and position, shape of the circuit."""
+    try:
+        c = parse_jaqal_string(text, autoload_pulses=False)
+        return ("ok", len(c.body.statements), len(c.registers), len(c.constants), len(c.macros))
+    except JaqalParseError as ex:
+        return ("parse error", ex.line, ex.column)
+    except JaqalError as ex:
+        return ("jaqal error",)
 
 
 def c16_total(s: str, pre: str, post: str, entry: int) -> str:
@@ -172,7 +181,7 @@ def c16_history(s: str, sel: int, order: int) -> str:
 
     def run(text, entry=0):
         # the pool text is concrete: processing it is executed natively; the symbolic text is traced
-        return concretely(_outcome, text, entry) if text is fixed else _outcome(text, entry)
+        return concretely(_outcome, text, entry) if text is fixed else _outcome_kind(text)
 
     try:
         before = run(a)
